@@ -93,8 +93,9 @@ def _validate_name(name, settings, exception_cls=AttributeError):
     if whitelist:
         for entry in whitelist:
             if _match_name_to_entry(name, entry):
-                return
-        raise exception_cls('Cannot access ' + name)
+                break
+        else:
+            raise exception_cls('Cannot access ' + name)
     blacklist = settings['blacklist']
     if blacklist:
         for entry in blacklist:
